@@ -177,7 +177,12 @@ func (d *decoder) decode(v interface{}) error {
 								// step out of loop
 								break
 							}
+							// an element ends at the next delimiter; a field which is missing
+							// in it (empty string or bytes) is not taken from a later element
+							limit := d.r.limit
+							d.r.limit = d.positionOf(valueType.Elem())
 							err = d.decode(v)
+							d.r.limit = limit
 						} else {
 							b, e := d.r.readBytes(tag)
 							if e == io.EOF {
@@ -243,12 +248,20 @@ func (d *decoder) decode(v interface{}) error {
 // hasValueFor returns true if there is a value left for at least one
 // of the tlv8 fields of struct type t.
 func (d *decoder) hasValueFor(t reflect.Type) bool {
+	return d.positionOf(t) >= 0
+}
+
+// positionOf returns the number of delimiters in front of the first value which
+// is left for one of the tlv8 fields of struct type t, or -1 if there is none.
+func (d *decoder) positionOf(t reflect.Type) int {
+	first := -1
+
 	if t.Kind() == reflect.Ptr {
 		t = t.Elem()
 	}
 
 	if t.Kind() != reflect.Struct {
-		return false
+		return first
 	}
 
 	for i := 0; i < t.NumField(); i++ {
@@ -257,21 +270,23 @@ func (d *decoder) hasValueFor(t reflect.Type) bool {
 			continue
 		}
 
+		position := -1
 		if tlv8 == "-" {
 			// inline encoded elements use the tags of their fields
-			if f := t.Field(i).Type; f.Kind() == reflect.Slice && d.hasValueFor(f.Elem()) {
-				return true
+			if f := t.Field(i).Type; f.Kind() == reflect.Slice {
+				position = d.positionOf(f.Elem())
 			}
-			continue
+		} else {
+			values := strings.Split(tlv8, ",")
+			position = d.r.position(uint8(to.Uint64(values[0])))
 		}
 
-		values := strings.Split(tlv8, ",")
-		if d.r.len(uint8(to.Uint64(values[0]))) > 0 {
-			return true
+		if position >= 0 && (first < 0 || position < first) {
+			first = position
 		}
 	}
 
-	return false
+	return first
 }
 
 func newValueOf(t reflect.Type) reflect.Value {
